@@ -42,10 +42,39 @@ class Report(object):
             "detail": detail, "nontrivial": bool(nontrivial)})
 
     def finding(self, rule, function, key, where, message):
-        """key: normalised construct text (never a line number)."""
+        """key: normalised construct text (never a line number).  Local
+        variable names of the reported function are replaced by positional
+        placeholders, so that renaming a local does not change the key."""
         self.findings.append({
             "property": self.prop, "rule": rule, "function": function,
-            "key": key, "where": where, "message": message})
+            "key": self.canonical_key(function, key), "where": where, "message": message})
+
+    def canonical_key(self, function, key):
+        fi = self.index.functions.get(function)
+        if fi is None:
+            return key
+        locs = getattr(fi, "_locals", None)
+        if locs is None:
+            import ast as _ast
+            params = set(fi.all_params)
+            locs = set()
+            for n in _ast.walk(fi.node):
+                if isinstance(n, _ast.Name) and isinstance(n.ctx, (_ast.Store, _ast.Del)) and n.id not in params:
+                    locs.add(n.id)
+            fi._locals = locs
+        if not locs:
+            return key
+        import re as _re
+        order = {}
+
+        def sub(m):
+            w = m.group(0)
+            if w in locs:
+                if w not in order:
+                    order[w] = "$%d" % (len(order) + 1)
+                return order[w]
+            return w
+        return _re.sub(r"(?<![\w.'\"%])[A-Za-z_]\w*", sub, key)
 
     def check(self, cond, rule, function, key, where, instance, message):
         """Record an obligation; on failure also a finding."""
